@@ -145,7 +145,42 @@ def gen_schedules(rng, tier, kinds=('bsp', 'blp'), flush=True, shut=True):
         mode = rng.random()
         th = list(range(nth))
         sched = []
-        if mode < 0.35:
+        if mode < 0.25 and flush:
+            # staged: whole phases of one thread each, in an order that makes calls overlap - a backlog, a ForceFlush that
+            # finds it, the worker part of the way through serving it, then more records and a second ForceFlush (or a
+            # Shutdown) that arrive while the first is still being served
+            maxq = rng.choice([3, 4, 4]); maxb = rng.choice([1, 1, 2]); adds = rng.randrange(2, 5)
+            nprod = max(nprod, 2)
+            fl = ''.join(rng.choice('ii0') for _ in range(2))
+            nshut = rng.choice([0, 0, 1]) if shut else 0
+            nth = 1 + nprod + len(fl) + nshut
+            th = list(range(nth))
+            P1, P2, F1, F2 = 1, 2, 1 + nprod, 2 + nprod
+            S1 = 1 + nprod + len(fl) if nshut else None
+            stages = [(P1, rng.randrange(10, 45)), (F1, rng.randrange(5, 14)), (0, rng.randrange(3, 45)),
+                      (P2, rng.randrange(8, 30)), (F2 if S1 is None or rng.random() < 0.7 else S1, rng.randrange(5, 14)),
+                      (0, rng.randrange(5, 70)), (F1, rng.randrange(2, 8)), (F2, rng.randrange(2, 8))]
+            if rng.random() < 0.5:
+                # the same shape with phase lengths in units of what one Add (about 10 steps) and one iteration of the
+                # worker's export loop (about 9) take, jittered: k1 records queued, the first ForceFlush, the worker j batches
+                # into serving it, one more record and the second ForceFlush, the worker up to somewhere around the
+                # publication, the second caller's return, then a burst from both producers
+                maxq, maxb, adds = 4, 1, 4
+                k1 = rng.choice([2, 3]); j = rng.randrange(0, k1)
+                jit = lambda n: max(1, n + rng.randrange(-2, 4))
+                stages = [(P1, jit(10 * k1)), (F1, jit(11)), (0, jit(8 + 9 * j)), (P2, jit(10)), (F2, jit(10)),
+                          (0, jit(9 * (k1 - j) + 7 + rng.randrange(0, 10))), (F2, jit(6)), (P1, jit(10 * (4 - k1) + 2)), (P2, jit(32))]
+            elif rng.random() < 0.5:
+                stages.insert(rng.randrange(2, len(stages)), (rng.choice([P1, P2]), rng.randrange(5, 30)))
+            if S1 is not None and rng.random() < 0.5:
+                stages.insert(rng.randrange(3, len(stages)), (S1, rng.randrange(3, 12)))
+            if rng.random() < 0.6:
+                # … and once the second ForceFlush has returned, a burst of up to max_queue_size more records while the
+                # worker is not scheduled: nothing may be dropped if that flush really was complete
+                adds = 4
+                stages += [(F2, rng.randrange(3, 10)), (P1, rng.randrange(15, 50)), (P2, rng.randrange(15, 50))]
+            sched = [t for t, k in stages for _k in range(k)]
+        elif mode < 0.35:
             cur = rng.choice(th)
             for _k in range(n):
                 if rng.random() < 0.12:
@@ -266,6 +301,17 @@ def oracle_c01(case, out):
                 exported_before_begin = sum(sz for (t, sz) in exp_end_times if t < r['chk_t'])
                 if begun_before_ret - exported_before_begin < h.cfg.maxq:
                     return ('dropped-only-when-queue-full', f'r{i}: begun-before-return={begun_before_ret} exported-before-begin={exported_before_begin} max_queue_size={h.cfg.maxq}')
+                # … in particular never when at most max_queue_size records were produced since a completed flush: a
+                # ForceFlush that returned true before this Add began has emptied the queue of everything whose OnEnd
+                # had returned when it began, so only records still in OnEnd then, or begun since, can occupy it
+                for ftid, f in flushes.items():
+                    if f['ret'] == 1 and f['ret_t'] is not None and f['ret_t'] < r['chk_t']:
+                        since = sum(1 for q in rec.values() if q['chk'] == 0 and q['chk_t'] < r['ret_t'] and
+                                    (q['ret_t'] is None or q['ret_t'] > f['begin']))
+                        if since <= h.cfg.maxq:
+                            return ('no-drop-within-max_queue_size-of-a-completed-flush',
+                                    f'r{i} dropped; flush of T{ftid} returned true at {f["ret_t"]}; {since} records (this one included) '
+                                    f'were in OnEnd or begun since it began at {f["begin"]}; max_queue_size={h.cfg.maxq}')
     for tid in {r['tid'] for r in rec.values()}:
         seq = [i for i in delivered if rec.get(i, {}).get('tid') == tid]
         if seq != sorted(seq):
